@@ -105,4 +105,15 @@ def pkDecode (k : Nat) (pk : List Nat) : List Nat × List (List Int) :=
 def w1Encode (c : Nat) (w1 : List (List Int)) : List Nat :=
   (w1.map (fun r => simpleBitPack c r)).flatten
 
+
+/-- Algorithm 22 `pkEncode(ρ, t1)`: `pk ← ρ ‖ SimpleBitPack(t1[0], 2^{bitlen(q-1)-d} - 1) ‖ .. ‖ SimpleBitPack(t1[k-1], ..)` (10 bits per coefficient) -/
+def pkEncode (rho : List Nat) (t1 : List (List Int)) : List Nat :=
+  rho ++ (t1.map (fun t => simpleBitPack 10 t)).flatten
+
+/-- Algorithm 24 `skEncode(ρ, K, tr, s1, s2, t0)`: `ρ ‖ K ‖ tr ‖ BitPack(s1[i], η, η).. ‖ BitPack(s2[i], η, η).. ‖ BitPack(t0[i], 2^{d-1} - 1, 2^{d-1})..`
+    (`c = bitlen(2η)` bits per coefficient of `s1`, `s2`; 13 bits per coefficient of `t0`) -/
+def skEncode (c : Nat) (eta : Int) (rho key tr : List Nat) (s1 s2 t0 : List (List Int)) : List Nat :=
+  rho ++ key ++ tr ++ (s1.map (fun x => bitPack c eta x)).flatten ++ (s2.map (fun x => bitPack c eta x)).flatten ++
+    (t0.map (fun x => bitPack 13 4096 x)).flatten
+
 end Fips204.Spec
